@@ -492,6 +492,11 @@ let gen_render r ~tier oc =
         "{% for i in [1, 2] %}{% import '$' as f %}{{ f.m() }}{% endfor %}"; "{% macro w() %}{% import '$' as f %}{{ f.m() }}{% endmacro %}{{ w() }}"; "{% include '$' %}"; "{% extends '$' %}";
         "{% block b %}{% from '$' import m %}{{ m() }}{% endblock %}"; "{% import '$' as f %}{% import 'macros' as g %}{{ g.n() }}" ])
     [ "c05libdiv"; "c05libinc"; "c05libfn"; "c05libfilter"; "c05libidx"; "c05libimp"; "c05libext" ];
+  (* sandboxed includes under the default policy, the included partial reading attributes of every shape of value *)
+  List.iter (fun tpl -> emit_render oc "sandboxed-attributes" tpl)
+    [ "{% include 'c05sb' sandboxed %}"; "{% include 'c05sb' with {'st': null, 'm': null} sandboxed %}"; "{% include 'c05sb' with {'st': 1} only sandboxed %}"; "{% include 'c05sb' only sandboxed %}";
+      "{% for i in [1, 2] %}{% include 'c05sb' sandboxed %}{% endfor %}"; "{% include 'inc' sandboxed %}"; "{% include 'c05mid' sandboxed %}"; "{% include 'c05nest' sandboxed %}";
+      "{% include 'c05sb' ignore missing sandboxed %}"; "{% include 'c05libfn' sandboxed %}" ];
   List.iter (fun tpl -> emit_render oc "special" tpl)
     [ "{% macro m() %}{% block b %}x{% endblock %}{% endmacro %}{{ m() }}"; "{% macro m(a) %}<{% block b %}{{ a }}{% endblock %}>{% endmacro %}{{ _self.m(1) }}{{ m(2) }}";
       "{% macro m() %}{% if true %}{% for i in [1] %}{% block b %}x{% endblock %}{% endfor %}{% endif %}{% endmacro %}{% block b %}outer{% endblock %}{{ m() }}";
